@@ -124,6 +124,15 @@ Theorem C11_source_sort_key : forall s m r, src_sort s (fun l => py_sorted_key l
 Proof. exact source_sort_key. Qed.
 Print Assumptions C11_source_sort_key.
 
+Theorem C11_source_index : forall s x, Inv0 s -> src_index s x = (s, res_map RNat (m_index s x)).
+Proof. exact source_index. Qed.
+Print Assumptions C11_source_index.
+
+Theorem C11_source_getitem : forall s i j, Inv0 s -> norm_index (length (m_live s)) i = Some j ->
+  src_getitem_int s i = (s, res_map RItem (m_getitem s i)).
+Proof. exact source_getitem. Qed.
+Print Assumptions C11_source_getitem.
+
 (* s[a:b:k], k > 0: iter_slice + islice = the list slice of CPython *)
 Theorem C11_slice : forall s a b k, Inv s -> valid_op (m_live s) (Slice a b k) = true ->
   m_slice s a b k = snd (spec_step (m_live s) (Slice a b k)).
